@@ -458,6 +458,106 @@ theorem asis_violates_spec : ¬ Spec wA wB (gridEqAsIs wA wB) (!gridEqAsIs wA wB
 
 example : Spec wA wB (gridEq wA wB) (!gridEq wA wB) := impl_meets_spec_partial wA wB rfl
 
+/-! ## the backing state (numpy / dask) is not an input of `==`
+
+    `gridEqB` transcribes what xarray does on dask-backed variables (lazy shortcut on equal graph
+    names).  As long as dask names are faithful — equal name (and shape) only on equal values,
+    which is what content-derived tokens give and what the driver evaluates on every observed
+    pair — the result is the value-level `gridEq`: chunking, re-chunking with other arguments,
+    chunking one side only … cannot change the answer, and every theorem above transfers. -/
+
+theorem lazyEquiv_some {ba bb : Backing} {r : Bool} (h : lazyEquiv ba bb = some r) : r = true := by
+  cases ba <;> cases bb <;> simp [lazyEquiv] at h
+  exact h.2
+
+theorem varEqB_eq (s : Bool) (ba bb : Backing) (v : Bool) (hs : s = false → v = false)
+    (hf : faithful1 s ba bb v = true) : varEqB s ba bb v = v := by
+  unfold varEqB
+  cases s with
+  | false => simp [hs rfl]
+  | true =>
+    simp only [Bool.not_true, Bool.false_eq_true, if_false]
+    cases hl : lazyEquiv ba bb with
+    | none => rfl
+    | some r =>
+      have hr := lazyEquiv_some hl
+      subst hr
+      simp [faithful1, hl] at hf
+      exact hf.symm
+
+theorem lonShape_false (a b : Grid) (h : lonShapeEq a b = false) :
+    arrEq valEq a.lon b.lon = false := by
+  cases hh : arrEq valEq a.lon b.lon with
+  | false => rfl
+  | true =>
+    have := ((arrEq_true_iff _ _ _).mp hh).1
+    simp [lonShapeEq, this] at h
+
+theorem latShape_false (a b : Grid) (h : latShapeEq a b = false) :
+    arrEq valEq a.lat b.lat = false := by
+  cases hh : arrEq valEq a.lat b.lat with
+  | false => rfl
+  | true =>
+    have := ((arrEq_true_iff _ _ _).mp hh).1
+    simp [latShapeEq, this] at h
+
+theorem connShape_false (a b : Grid) (h : connShapeEq a b = false) : connEq a b = false := by
+  cases hh : connEq a b with
+  | false => rfl
+  | true =>
+    obtain ⟨h1, h2, h3⟩ := (connEq_iff a b).mp hh
+    simp [connShapeEq, h1, h2, h3] at h
+
+/-- **the backing does not influence `==`** when dask names are faithful. -/
+theorem backing_irrelevant (a b : BGrid) (h : namesFaithful a b = true) :
+    gridEqB a b = gridEq a.g b.g := by
+  simp only [namesFaithful, Bool.and_eq_true] at h
+  obtain ⟨⟨h1, h2⟩, h3⟩ := h
+  unfold gridEqB gridEq lonEqB latEqB connEqB lonEq latEq
+  rw [varEqB_eq _ _ _ _ (lonShape_false a.g b.g) h1, varEqB_eq _ _ _ _ (latShape_false a.g b.g) h2,
+    varEqB_eq _ _ _ _ (connShape_false a.g b.g) h3]
+
+/-- numpy-backed on at least one side: nothing is decided lazily, names are vacuously faithful. -/
+theorem namesFaithful_numpy_left (g : Grid) (b : BGrid) :
+    namesFaithful { g := g } b = true := by
+  simp [namesFaithful, faithful1, lazyEquiv]
+
+theorem namesFaithful_numpy_right (a : BGrid) (g : Grid) :
+    namesFaithful a { g := g } = true := by
+  unfold namesFaithful faithful1
+  cases a.bLon <;> cases a.bLat <;> cases a.bConn <;> simp [lazyEquiv]
+
+theorem eqB_numpy (a b : Grid) : gridEqB { g := a } { g := b } = gridEq a b :=
+  backing_irrelevant _ _ (namesFaithful_numpy_left a _)
+
+/-- **`==` is a function of the values only**: two pairs with the same values but any other
+    backing states (other chunk sizes, other names, numpy on one side …) get the same answer. -/
+theorem eqB_values_only (a b a' b' : BGrid) (ha : a.g = a'.g) (hb : b.g = b'.g)
+    (h : namesFaithful a b = true) (h' : namesFaithful a' b' = true) :
+    gridEqB a b = gridEqB a' b' := by
+  rw [backing_irrelevant a b h, backing_irrelevant a' b' h', ha, hb]
+
+theorem eqB_sound (a b : BGrid) (h : namesFaithful a b = true) (he : gridEqB a b = true) :
+    Same a.g b.g := eq_sound _ _ (backing_irrelevant a b h ▸ he)
+
+/-- a single changed entry is detected in every backing state with faithful names. -/
+theorem single_change_detectedB (a b : BGrid) (h : namesFaithful a b = true)
+    (hc : Change a.g b.g) : gridEqB a b = false := by
+  rw [backing_irrelevant a b h]; exact (single_change_detected hc).1
+
+example : gridEqB ⟨wA, .dask 1 [2, 1], .dask 2 [2, 1], .dask 3 [1]⟩
+    ⟨wB, .dask 4 [3], .dask 2 [3], .dask 3 [1]⟩ = false :=
+  single_change_detectedB _ _ (by decide)
+    (Change.lon (a := wA) 1 4622382067542392832 (by decide) (by decide))
+
+/-- … and NOT otherwise: if two grids that differ in one longitude carry the same dask names
+    (names derived from format / variable name / dtype / shape instead of the contents), the lazy
+    shortcut answers True.  This is the invariant `Grid.chunk()` has to keep. -/
+theorem unfaithful_names_break :
+    ∃ a b : BGrid, namesFaithful a b = false ∧ gridEqB a b = true ∧ gridEq a.g b.g = false :=
+  ⟨⟨wA, .dask 1 [3], .dask 2 [3], .dask 3 [1]⟩, ⟨wB, .dask 1 [3], .dask 2 [3], .dask 3 [1]⟩,
+    by decide, by decide, by decide⟩
+
 /-- what `or` computes: it forgets one of the two coordinate comparisons. -/
 theorem asis_eq_iff (a b : Grid) :
     gridEqAsIs a b = true ↔
